@@ -277,6 +277,15 @@ def oracle(ck, extended):
         else:
             rt.guard(ck, oracle_pr_bank, ck, 2, m, J, bank, gen.int_tensor(rng, (1, 1, rng.randint(max(2, L), 14), rng.randint(max(2, L), 14)), 4))
     ck.extra['odd_length_integer_pr_banks_used'] = made_odd
+    # sizes above every blocking / tiling threshold (gen.scale_shapes_*), every mode, per-axis pairs of different lengths
+    wl = ['db2', 'bior2.4', 'sym5', 'db7', 'db4', 'haar']
+    for k, shp in enumerate(gen.scale_shapes_1d(ck.tier)):
+        for m in gen.MODES5:
+            rt.guard(ck, oracle_pr, ck, 1, m, 1 + (k + m) % 3, wl[(k + m) % len(wl)], gen.float_tensor(ck.nprng, shp))
+    for k, shp in enumerate(gen.scale_shapes_2d(ck.tier)):
+        for m in gen.MODES5:
+            name = wl[(k + m) % len(wl)] if (k + m) % 3 else (wl[k % len(wl)], wl[(k + 3) % len(wl)])
+            rt.guard(ck, oracle_pr, ck, 2, m, 1 + (k + m) % 3, name, gen.float_tensor(ck.nprng, shp))
     names = pywt.wavelist(kind='discrete')
     n = (140 if q else 1500) * (3 if extended else 1)
     for it in range(n):
